@@ -89,7 +89,9 @@ type NAL struct {
 func (reader *H264Reader) read(numToRead int) (data []byte, e error) {
 	for len(reader.readBuffer) < numToRead {
 		n, err := reader.stream.Read(reader.tmpReadBuf)
-		if err != nil {
+		// an io.Reader may return data together with the error (e.g. io.EOF):
+		// use the data first, the error will be returned again by the next Read.
+		if err != nil && n == 0 {
 			return nil, err
 		}
 		if n == 0 {
